@@ -273,7 +273,10 @@ pub fn iterator_laws_by<I: Iterator, T: PartialEq + std::fmt::Debug>(what: &str,
     // the consuming methods an iterator may specialise must see what is LEFT, not the whole sequence:
     // after m items have been taken (by next(), or by by_ref().take(m)): count / last / fold
     // (size_hint after partial consumption is not judged: no property promises it)
-    for &m in &ns {
+    let mut ms = vec![1usize, len / 2, len.saturating_sub(1), len, len + 1];
+    ms.sort();
+    ms.dedup();
+    for &m in &ms {
         let rem = len.saturating_sub(m);
         let advance = |via_take: bool| -> I {
             let mut it = mk();
